@@ -170,6 +170,22 @@ def oracle_pair_adapters(ent):
             c1, c2 = s1 != inp[i][0][1], s2 != inp[i][1][1]
             if c1 != c2:
                 return "pair %r: one mate trimmed (%s), the other not, under --pair-adapters" % (n1, "R1" if c1 else "R2")
+            if c1 and b.times == 1 and not b.revcomp:
+                # some rank must explain both trimmed mates (the single adapters' own answers on the input mates)
+                o1, o2 = ent.get("_objs") or P.adapter_objects2(pcfg)
+                ent["_objs"] = (o1, o2)
+                def ranks(objs, seq_in, seq_out):
+                    out = set()
+                    for j, ad in enumerate(objs):
+                        m = ad.match_to(seq_in)
+                        if m is not None and hasattr(m, "remainder_interval"):
+                            lo, hi = m.remainder_interval()
+                            if seq_in[lo:hi] == seq_out:
+                                out.add(j)
+                    return out
+                j1, j2 = ranks(o1, inp[i][0][1], s1), ranks(o2, inp[i][1][1], s2)
+                if j1 and j2 and not (j1 & j2):
+                    return "pair %r: R1 trimmed by adapter rank %s, R2 by rank %s under --pair-adapters" % (n1, sorted(j1), sorted(j2))
     return None
 
 
@@ -324,13 +340,41 @@ def oracle_paired_revcomp(ent):
     return None
 
 
+def oracle_pdemux(ent, d):
+    """paired {name} demultiplexing: the pair goes to the file of the adapter that the LAST match on R1 belongs to
+    (the single-end run of R1 with an info file says which that is)"""
+    pcfg, res = ent["cfg"], ent["impl"]
+    b = pcfg.base
+    if not b.demux or pcfg.combinatorial or b.revcomp or pcfg.pair_adapters:
+        return None
+    c1 = single_side(pcfg, 1)
+    r1 = S.run_impl(c1, [pr[0] for pr in ent["pairs"]], d)
+    if r1["exit"] != 0:
+        return None
+    last = {}
+    for row in r1["info"] or []:
+        if row[1] != "-1":
+            last[read_index(row[0])] = row[7].split(";")[0]
+    for key, prs in res["files"].items():
+        if not str(key).startswith("name:"):
+            continue
+        for pr in prs:
+            if not isinstance(pr, tuple) or len(pr) != 2 or not isinstance(pr[0], tuple):
+                continue
+            idx = read_index(pr[0][0])
+            want = "name:" + last[idx] if idx in last else "name:unknown"
+            if key != want and not (idx not in last and key == 3):
+                return "pair %r is in file %r, the last match on R1 says %r" % (pr[0][0], key, want)
+    return None
+
+
 PAIRED_ORACLES = {
     "C03": lambda ent, d: oracle_slices(ent, d),
     "C04": lambda ent, d: oracle_sync(ent),
     "C05": lambda ent, d: oracle_sync(ent) or oracle_pair_adapters(ent) or oracle_decision(ent, d),
     "C10": lambda ent, d: oracle_sides(ent, d),
     "C11": lambda ent, d: oracle_decision(ent, d),
-    "C15": lambda ent, d: oracle_sync(ent) or oracle_decision(ent, d),
+    "C15": lambda ent, d: oracle_sync(ent) or oracle_pdemux(ent, d) or oracle_decision(ent, d),
     "C16": lambda ent, d: oracle_paired_revcomp(ent),
 }
 PAIRED_FOCUS = {
@@ -339,7 +383,7 @@ PAIRED_FOCUS = {
     "C05": FOCUS,
     "C10": ("cut", "qual", "length", "adapters", "trimn", "names", "zerocap", "nextseq"),
     "C11": ("filters", "pairfilter", "adapters"),
-    "C15": ("demux", "combinatorial", "adapters"),
+    "C15": ("demux", "combinatorial", "adapters", "times"),
     "C16": ("revcomp", "adapters", "times", "action"),
 }
 
